@@ -12,6 +12,7 @@ import DuneVerif.Proofs.C12Compat
 import DuneVerif.Proofs.C12Lex
 import DuneVerif.Proofs.C12Opt
 import DuneVerif.Proofs.C12R2
+import DuneVerif.Proofs.C12Named
 
 namespace DV.C12
 
@@ -382,6 +383,30 @@ example : readNamedOptions ["--m=5".toList, "7".toList] .empty ["n".toList, "m".
     .ok (.node [("m".toList, "5".toList), ("n".toList, "7".toList)] []) := by rfl
 example : readNamedOptions ["--zz=5".toList] .empty ["n".toList] 0 false true = .error .parser := by rfl
 example : readNamedOptions ["--help".toList] .empty ["n".toList] 1 false true = .error .help := by rfl
+
+/-- **options_spec**, every argument vector.  `namedSpec` reads the documentation literally with a *set* of keywords
+    that already have a value: `--k=v` is stored under `k` (unknown `k` rejected unless allow_more), a positional
+    argument goes to the first keyword of the list not given so far (none left: "superfluous"), `-h`/`--help` is the
+    help request, `--k` without `=` an error, and finally each of the first `required` keywords must be given
+    ("missing").  The code keeps a `vector<bool> done` and a cursor that only moves forward; for every argument
+    vector (any mix and order of named, positional, malformed and help arguments), every tree, all flags and every
+    keyword list without repetitions the two agree. -/
+theorem options_spec_all_vectors (args : List Str) (t : Tree) (kws : List Str) (required : Nat) (am ow : Bool)
+    (hn : kws.Nodup) : readNamedOptions args t kws required am ow = namedSpec args t kws required am ow :=
+  readNamedOptions_eq_spec args t kws required am ow hn
+
+/-- two named keywords in front of a positional argument: it goes to the third keyword -/
+example : namedSpec ["--grid=g.dgf".toList, "--level=3".toList, "out.vtu".toList] .empty
+    ["grid".toList, "level".toList, "output".toList] 3 false true =
+    .ok (.node [("grid".toList, "g.dgf".toList), ("level".toList, "3".toList), ("output".toList, "out.vtu".toList)] []) := by rfl
+example : readNamedOptions ["--grid=g.dgf".toList, "--level=3".toList, "out.vtu".toList] .empty
+    ["grid".toList, "level".toList, "output".toList] 3 false true =
+    .ok (.node [("grid".toList, "g.dgf".toList), ("level".toList, "3".toList), ("output".toList, "out.vtu".toList)] []) := by rfl
+example : namedSpec ["--foo=1".toList, "--bar=2".toList, "hurz".toList] .empty ["foo".toList, "bar".toList] 2 false true =
+    .error .parser := by rfl
+example : ["grid".toList, "level".toList, "output".toList].Nodup := by decide
+example : classify "--a=b=c".toList = .named "a".toList "b=c".toList ∧ classify "--a".toList = .bad ∧
+    classify "-x".toList = .pos "-x".toList ∧ classify "--help".toList = .help := by decide
 
 /-! ## typed retrieval -/
 
